@@ -5,10 +5,20 @@ A scenario is JSON-able: {"start_id": int, "steps": [step, ...]} with steps
   ["start", noresp(0|1), send_yields]   start a task that calls client.request(...)
   ["yield", n]                          the director yields n times (asyncio loop iterations)
   ["resp", call_id, "ok"|"err", serial] the peer's next datagram: a response carrying call_id
+  ["ans", task, kind, serial]           the peer answers the REQUEST MESSAGE that task `task` sent (one-way requests
+                                        included): a response echoing the call id that request carried, whose body /
+                                        error code names the task (skipped when that task has not sent anything)
   ["raw", hex]                          the peer's next datagram (any bytes)
   ["req", protocol, method, call_id]    the peer's next datagram: a request (no server registered)
   ["eof"]                               the peer closes: recv() raises anyio.EndOfStream
   ["close"] | ["disconnect"] | ["cleanup"]   local closure via RMCClient.close()/disconnect()/__aexit__
+Optional scenario keys:
+  "servers": [hook, ...]   protocol servers handed to RMCClient.start(); hook = what `logout(client)` does:
+                           ["ret"] | ["yret", k] (k loop iterations, then returns) | ["raise"] | ["yraise", k] |
+                           ["idle"] (returns once no call is outstanding on the connection) | ["forever"]
+  "spawn_close": 1         every local closure runs in a task of its own (as a real owner would: the director
+                           must not depend on the closure returning)
+Log lines of the hooks: `hookret` / `hookraise` at the moment a logout hook returns / raises.
 Every atomic section that the model has an op for appends one line to the op log *at the moment
 it happens*; asyncio runs the code between two awaits atomically, so the log order is the real
 interleaving. The log is what the Lean model replays.
@@ -47,6 +57,57 @@ def build_resp(call_id, kind, serial, protocol=10, method=1):
         payload = bytes([protocol, 0]) + struct.pack("<II", 0x00010005 + serial, call_id)
         return struct.pack("<I", len(payload)) + payload
     raise ValueError(kind)
+
+
+def ans_body(task, serial):
+    return b"A%d.%d" % (task, serial)
+
+
+def ans_code(task, serial):
+    return 0x20000 + task * 64 + serial
+
+
+def build_ans(call_id, task, kind, serial, protocol=10, method=1):
+    """the peer's answer to the request message sent by `task` (echoes that request's call id)"""
+    import struct
+    if kind == "ok":
+        return rmc.RMCMessage.response(S, protocol, method, call_id, ans_body(task, serial)).encode()
+    if kind == "err":
+        return rmc.RMCMessage.error(S, protocol, method, call_id, 0x80000000 | ans_code(task, serial)).encode()
+    if kind == "err-nobit":
+        payload = bytes([protocol, 0]) + struct.pack("<II", ans_code(task, serial) + 0x10000, call_id)
+        return struct.pack("<I", len(payload)) + payload
+    raise ValueError(kind)
+
+
+class HookError(Exception):
+    pass
+
+
+class FakeServer:
+    """a protocol server as RMCClient sees it: PROTOCOL_ID, handle(), logout()"""
+    def __init__(self, sim, idx, hook):
+        self.sim, self.idx, self.hook = sim, idx, hook
+        self.PROTOCOL_ID = 0x50 + idx
+    async def handle(self, client, method, input, output):
+        pass
+    async def logout(self, client):
+        sim = self.sim
+        sim.hook_entries.append((len(sim.oplog) - 1, self.idx))
+        kind = self.hook[0]
+        if kind in ("yret", "yraise"):
+            for _ in range(self.hook[1]):
+                await anyio.sleep(0)
+        elif kind == "idle":
+            # a hook that waits until nobody uses the connection any more
+            while any(c["outcome"] is None for c in sim.callers):
+                await anyio.sleep(0)
+        elif kind == "forever":
+            await anyio.Event().wait()
+        if kind in ("raise", "yraise"):
+            sim.log("hookraise")
+            raise HookError("logout hook %d" % self.idx)
+        sim.log("hookret")
 
 
 class _WarnCounter(logging.Handler):
@@ -98,13 +159,16 @@ class FakePRUDP:
             if self.inbox:
                 item = self.inbox.popleft()
                 if item is EOF:
-                    self.sim.log("eof")
+                    self.sim.eof()
                     raise anyio.EndOfStream
+                item, addressee = item
                 self.sim.log("recv " + hx(item))
                 self.sim.recv_marks.append((len(self.sim.oplog) - 1, _handler.invalid))
+                if addressee is not None:
+                    self.sim.recv_addr[len(self.sim.oplog) - 1] = addressee
                 return item
             if self.closed:
-                self.sim.log("eof")
+                self.sim.eof()
                 raise anyio.EndOfStream
             self.wakeup = anyio.Event()
             await self.wakeup.wait()
@@ -128,8 +192,19 @@ class Sim:
         self.recv_marks = []    # (oplog index of a recv line, warning counter before processing)
         self.loop_result = None
         self.warn_after = {}
+        self.recv_addr = {}     # oplog index of a recv line -> task whose request message that datagram answers
+        self.hook_entries = []  # (oplog index of the op during which logout() of server idx was entered, idx)
+        self.cleanup_by = None  # who ran the body of cleanup(): "loop" or the index of a local closure
+        self.cleanup_status = "none"    # none | running | returned | raised
+        self.closures = []      # outcome of every local closure: [kind, "returned" | "raised <type>" | "running"]
+        self.skipped_ans = 0
     def log(self, line):
         self.oplog.append(line)
+    def eof(self):
+        # recv() is about to raise EndOfStream: start() will call cleanup()
+        if not self.client.closed:
+            self.cleanup_by = "loop"; self.cleanup_status = "running"
+        self.log("eof")
 
 
 def classify(exc):
@@ -159,13 +234,37 @@ async def _caller(sim, client, noresp, send_yields):
     c["done_at"] = len(sim.oplog) - 1
 
 
-async def _loop(sim, client):
+async def _loop(sim, client, servers):
     try:
-        await client.start([])
+        await client.start(servers)
         sim.loop_result = "returned"
+        if sim.cleanup_by == "loop": sim.cleanup_status = "returned"
+    except HookError:
+        # a logout hook raised inside the EndOfStream branch: start() ends with that exception
+        sim.loop_result = "hook-raised"
+        if sim.cleanup_by == "loop": sim.cleanup_status = "raised"
     except Exception as e:
         sim.loop_result = "crash " + type(e).__name__
         sim.log("loopcrash")
+
+
+async def _closer(sim, client, kind):
+    """one local closure: close() / disconnect() / leaving `async with client`"""
+    me = len(sim.closures)
+    rec = [kind, "running"]
+    sim.closures.append(rec)
+    if not client.closed:
+        sim.log("cleanup")
+        sim.cleanup_by = me; sim.cleanup_status = "running"
+    try:
+        if kind == "close": await client.close()
+        elif kind == "disconnect": await client.disconnect()
+        else: await client.__aexit__(None, None, None)
+        rec[1] = "returned"
+    except Exception as e:
+        rec[1] = "raised " + type(e).__name__
+    if sim.cleanup_by == me:
+        sim.cleanup_status = "returned" if rec[1] == "returned" else "raised"
 
 
 async def run_scenario(sc):
@@ -175,9 +274,11 @@ async def run_scenario(sc):
     client = rmc.RMCClient(S, fake)
     client.call_id = sc.get("start_id", 1)
     sim.client = client
+    servers = [FakeServer(sim, i, h) for i, h in enumerate(sc.get("servers", []))]
+    spawn = sc.get("spawn_close", 0)
     w0 = _handler.invalid
     async with anyio.create_task_group() as tg:
-        tg.start_soon(_loop, sim, client)
+        tg.start_soon(_loop, sim, client, servers)
         for st in sc["steps"]:
             k = st[0]
             if k == "start":
@@ -186,22 +287,24 @@ async def run_scenario(sc):
                 for _ in range(st[1]):
                     await anyio.sleep(0)
             elif k == "resp":
-                fake.inbox.append(build_resp(st[1], st[2], st[3])); fake._kick()
+                fake.inbox.append((build_resp(st[1], st[2], st[3]), None)); fake._kick()
+            elif k == "ans":
+                t = st[1]
+                if t < len(sim.callers) and sim.callers[t]["sent_id"] is not None:
+                    fake.inbox.append((build_ans(sim.callers[t]["sent_id"], t, st[2], st[3]), t)); fake._kick()
+                else:
+                    sim.skipped_ans += 1
             elif k == "raw":
-                fake.inbox.append(bytes.fromhex(st[1]) if st[1] != "-" else b""); fake._kick()
+                fake.inbox.append((bytes.fromhex(st[1]) if st[1] != "-" else b"", None)); fake._kick()
             elif k == "req":
-                fake.inbox.append(rmc.RMCMessage.request(S, st[1], st[2], st[3], b"").encode()); fake._kick()
+                fake.inbox.append((rmc.RMCMessage.request(S, st[1], st[2], st[3], b"").encode(), None)); fake._kick()
             elif k == "eof":
                 fake.inbox.append(EOF); fake._kick()
-            elif k == "close":
-                if not client.closed: sim.log("cleanup")
-                await client.close()
-            elif k == "disconnect":
-                if not client.closed: sim.log("cleanup")
-                await client.disconnect()
-            elif k == "cleanup":
-                if not client.closed: sim.log("cleanup")
-                await client.__aexit__(None, None, None)
+            elif k in ("close", "disconnect", "cleanup"):
+                if spawn:
+                    tg.start_soon(_closer, sim, client, k)
+                else:
+                    await _closer(sim, client, k)
             else:
                 raise ValueError(st)
         for _ in range(FINAL_YIELDS):
@@ -212,6 +315,8 @@ async def run_scenario(sc):
             "requests": sorted(client.requests.keys()), "responses": sorted(client.responses.keys()),
             "hung": [c["task"] for c in sim.callers if c["outcome"] is None],
             "loop": sim.loop_result, "undelivered": len(fake.inbox),
+            "cleanup_status": sim.cleanup_status, "closures": [list(r) for r in sim.closures],
+            "nservers": len(servers),
         }
         # per recv line: did the loop warn about an invalid call id while processing it?
         marks = sim.recv_marks
